@@ -618,6 +618,8 @@ class Fx:
             return self.numeric(e, want)
         if isinstance(e, (ast.ListComp, ast.SetComp)):
             return self.comprehension(e, want)
+        if isinstance(e, ast.DictComp):
+            return self.dict_comprehension(e, want)
         self.fail("expression outside the subset: " + ast.unparse(e), e)
 
     def static_cond(self, e):
@@ -742,6 +744,36 @@ class Fx:
         if isinstance(tgt, ast.Tuple) and ty.k == "Tuple" and len(ty.a) == len(tgt.elts):
             return "(" + ", ".join(self.bind_target(x, t, node) for x, t in zip(tgt.elts, ty.a)) + ")"
         self.fail("unsupported binding target `%s` for a value of type %r" % (ast.unparse(tgt), ty), node)
+
+    def dict_comprehension(self, e, want):
+        """`{k: f(k, v) for k, v in d.items() if c}`: the key expression must be the key variable of one `.items()` iteration, so
+        that no two items of the result share a key (a general dict comprehension overwrites: outside the subset)"""
+        A = self.area
+        if len(e.generators) != 1 or e.generators[0].is_async:
+            self.fail("dict comprehension with several generators", e)
+        g = e.generators[0]
+        it = g.iter
+        if not (isinstance(it, ast.Call) and isinstance(it.func, ast.Attribute) and it.func.attr == "items" and not it.args
+                and isinstance(g.target, ast.Tuple) and len(g.target.elts) == 2 and all(isinstance(x, ast.Name) for x in g.target.elts)
+                and isinstance(e.key, ast.Name) and e.key.id == g.target.elts[0].id):
+            self.fail("dict comprehension that is not `{k: … for k, v in d.items() …}`", e)
+        src, et, _p, raises = self.iterable(it)
+        self.scopes.append({})
+        try:
+            pat = self.bind_target(g.target, et, e)
+            n0 = len(self.lines)
+            conds = [self.cond_val(c) for c in g.ifs]
+            val = self.expr(e.value, want.a[1] if (want is not None and want.k == "Dict") else None)
+            if len(self.lines) != n0 or val.raises or any(c.raises for c in conds):
+                self.fail("a raising / effectful part inside a dict comprehension is outside the subset", e)
+        finally:
+            self.scopes.pop()
+        k = lean_local(e.key.id)
+        if conds:
+            text = "(List.filterMap (fun %s => if %s then some (%s, %s) else none) %s)" % (pat, " && ".join(c.text for c in conds), k, val.text, src)
+        else:
+            text = "(List.map (fun %s => (%s, %s)) %s)" % (pat, k, val.text, src)
+        return Val(text, T("Dict", et.a[0], val.ty), None, raises)
 
     def comprehension(self, e, want):
         A = self.area
